@@ -197,7 +197,7 @@ def run_case(case):
                 labels = (set() if with_labels == 'empty' else set(orig_labels) | {extra}) if with_labels else None
                 try:
                     with Spy() as spy:
-                        new = F.factorize_rule(rule, method=m, labels=labels) if with_labels else F.factorize_rule(rule, method=m)
+                        new = F.factorize_rule(rule, method=(m + '.')[:-1], labels=labels) if with_labels else F.factorize_rule(rule, method=(m + '.')[:-1])
                 except Exception as e:
                     r.exc(e, ctx, (sh,), key)
                     okall = False
